@@ -65,6 +65,11 @@ def gen_edits(rng: Rng) -> List[Dict[str, Any]]:
             kind = rng.choice(["swap_on_off", "swap_on_off", "swap", "move"])
             edits.append({kind: [rng.below(10000), rng.below(10000)]})
         return edits
+    if rng.chance(0.2):
+        # "what if the longest activities were much shorter": the heaviest edges, lowered
+        for _ in range(rng.randint(1, 3)):
+            edits.append({"pick_heavy": rng.below(8), "mul": rng.choice([0.125, 0.25, 0.0625])})
+        return edits
     for _ in range(rng.randint(1, 6)):
         kind = rng.weighted([("speedup", 4), ("slowdown", 3), ("zero", 1), ("set", 1), ("scale", 4), ("swap", 2), ("move", 2)])
         pick = rng.below(10000)
@@ -86,6 +91,25 @@ def gen_edits(rng: Rng) -> List[Dict[str, Any]]:
     return edits
 
 
+def reverse_edits(rng: Rng, edits: List[Dict[str, Any]]) -> List[Dict[str, Any]]:
+    """Edits of the same edges in the opposite direction: part of the way back, exactly back, or beyond."""
+    out: List[Dict[str, Any]] = []
+    for ed in edits:
+        key = "pick_heavy" if "pick_heavy" in ed else ("pick" if "pick" in ed else None)
+        if key is None:
+            out.append(dict(ed))   # swap / move / swap_on_off: applying them again exchanges back (or on)
+            continue
+        how = rng.choice(["part", "part", "back", "beyond"])
+        if "mul" in ed and ed["mul"]:
+            inv = 1.0 / float(ed["mul"])
+            out.append({key: ed[key], "mul": inv * {"part": 0.5, "back": 1.0, "beyond": 2.0}[how]})
+        elif "num" in ed and ed["num"]:
+            out.append({key: ed[key], "num": ed["den"] * (2 if how == "beyond" else 1), "den": ed["num"] * (2 if how == "part" else 1)})
+        else:
+            out.append({key: ed[key], "set": rng.randint(0, 5000)})
+    return out
+
+
 def _load_op(rng: Rng, inc: bool) -> Dict[str, Any]:
     return {"op": "load", "mode": "ta", "via": "dir", "include_last": inc}
 
@@ -100,13 +124,39 @@ def gen_plan_c09(rng: Rng, tier: str) -> Dict[str, Any]:
         g = n_graphs
         n_graphs += 1
         cur = g
+        last: Optional[List[Dict[str, Any]]] = None
+        rank = ops[-1]["rank"]
         for _ in range(rng.randint(1, 5)):
-            step = rng.weighted([("recompute", 3), ("reweight", 5), ("deepcopy", 2), ("breakdown", 1)])
+            step = rng.weighted([("recompute", 3), ("reweight", 5), ("deepcopy", 2), ("breakdown", 1), ("reverse", 2), ("roundtrip", 2)])
             if step == "recompute":
                 ops.append({"op": "cp_recompute", "graph": cur})
             elif step == "reweight":
-                ops.append({"op": "cp_reweight", "graph": cur, "edits": gen_edits(rng)})
+                last = gen_edits(rng)
+                ops.append({"op": "cp_reweight", "graph": cur, "edits": last})
                 ops.append({"op": "cp_recompute", "graph": cur})
+            elif step == "reverse":
+                # the same edges again, in the opposite direction
+                last = reverse_edits(rng, last) if last else gen_edits(rng)
+                ops.append({"op": "cp_reweight", "graph": cur, "edits": last})
+                ops.append({"op": "cp_recompute", "graph": cur})
+            elif step == "roundtrip":
+                # a copy by way of save / restore; continue on it, often by undoing the last what-if
+                out_dir = f"cp09/g{n_graphs}"
+                if rng.chance(0.6):
+                    # save a simulated graph: lower some of the heaviest edges first
+                    last = [{"pick_heavy": rng.below(8), "mul": rng.choice([0.125, 0.25, 0.0625])} for _ in range(rng.randint(1, 3))]
+                    ops.append({"op": "cp_reweight", "graph": cur, "edits": last})
+                    ops.append({"op": "cp_recompute", "graph": cur})
+                ops.append({"op": "cp_save", "graph": cur, "out_dir": out_dir})
+                ops.append({"op": "cp_restore", "zip": out_dir + ".zip", "rank": rank})
+                new = n_graphs
+                n_graphs += 1
+                if rng.chance(0.8):
+                    last = reverse_edits(rng, last) if (last and rng.chance(0.7)) else gen_edits(rng)
+                    ops.append({"op": "cp_reweight", "graph": new, "edits": last})
+                ops.append({"op": "cp_recompute", "graph": new})
+                if rng.chance(0.6):
+                    cur = new
             elif step == "deepcopy":
                 ops.append({"op": "cp_deepcopy", "graph": cur})
                 new = n_graphs
@@ -155,9 +205,11 @@ def gen_plan_c19(rng: Rng, tier: str, faulty: bool) -> Dict[str, Any]:
                 out_dir = out_dir.rstrip(".")
         if first_zip is None:
             first_zip = (out_dir + ".zip", not rel_mode)
-        if c > 0 and rng.chance(0.5):
+        last_edits = None
+        if (c > 0 and rng.chance(0.5)) or (c == 0 and rng.chance(0.15)):
             # the documented what-if workflow between two saves: the archives then differ
-            cur_sess["ops"].append({"op": "cp_reweight", "graph": graph_idx, "edits": gen_edits(rng)})
+            last_edits = gen_edits(rng)
+            cur_sess["ops"].append({"op": "cp_reweight", "graph": graph_idx, "edits": last_edits})
             cur_sess["ops"].append({"op": "cp_recompute", "graph": graph_idx})
             if rng.chance(0.6):
                 cur_sess["ops"].append({"op": "cp_breakdown", "graph": graph_idx})
@@ -186,6 +238,10 @@ def gen_plan_c19(rng: Rng, tier: str, faulty: bool) -> Dict[str, Any]:
         graph_idx = graph_idx_new
         cur_sess["ops"].append({"op": "cp_breakdown", "graph": graph_idx})
         if rng.chance(0.7):
+            cur_sess["ops"].append({"op": "cp_recompute", "graph": graph_idx})
+        elif last_edits and rng.chance(0.7):
+            # continue the what-if on the restored copy without recomputing first: same edges, other direction
+            cur_sess["ops"].append({"op": "cp_reweight", "graph": graph_idx, "edits": reverse_edits(rng, last_edits)})
             cur_sess["ops"].append({"op": "cp_recompute", "graph": graph_idx})
     if cycles >= 2 and first_zip is not None and rng.chance(0.6):
         # the first archive is still there after later saves to other directories: restore it again
